@@ -121,6 +121,10 @@ def main(argv):
         ck.audit("OlVerif/Audit/C10.lean")
     nprogs = 6 if ck.tier == "quick" else 24
     progs = [gen_prog.gen_program(ck.rng, size=ck.rng.randrange(3, 9))[0] for _ in range(nprogs)]
+    progs[1] = "for i in [1, 2, 3]:\n    if i == 2:\n        break\n    print(i)\nelse:\n    print('no')\n"
+    progs[2] = "n = 2\nwhile n:\n    n -= 1\nimport math\nprint(math.floor(2.5))\n"
+    progs[3] = "def g():\n    for j in range(3):\n        if j:\n            return j\nclass K:\n    a = 1\nprint(g(), K.a)\n"
+    progs[4] = "x = 1\ny = 2\nprint(x + y)\n"
     progs[0] = "def f(alpha, beta, gamma, delta):\n    def g():\n        return alpha, beta, gamma, delta\n    return g\nprint(f(1, 2, 3, 4)())\n"
     try:
         F = fresh_table(progs, per_conversion=(ck.tier == "thorough"))
